@@ -92,6 +92,9 @@ const code = 18
 
 var addAKA = ops.ParseJSON(`{"action":"add-also-known-as","uris":["https://windowed.example/1"]}`)
 
+// farPast is a window start within a few hundred seconds of the smallest int64 (-2^63 + 808).
+const farPast = int64(-9223372036854775000)
+
 func Run(r *core.Run) {
 	r.Rule = "all combinations of delta in {0,1,3,600,9223372036,9223372037,10^10} (thorough {0,1,2,3,7,600,86400,...,2^40}), from in {0,5,10} (thorough {0,1,5,10,1000}) and {-D-1,-D,-D+1}, until in {0,from-1,from,from+1,from+D-1,from+D,from+D+1}, " +
 		"t in ({from,until,from+D} +- {0,1}) u {0}; x {update,recover,deactivate} x {Ed25519,P-256} (thorough: all 5 key types) x (baseline + each other numeric protocol parameter set to 4-5 other values alone); " +
@@ -156,6 +159,9 @@ func Run(r *core.Run) {
 			if D > 0 {
 				fs = uniq(append(append([]int64{}, froms...), -D, -D-1, -D+1))
 			}
+			// ... and a window that began (and, without an explicit end, ended) an int64 ago: a difference t - from leaves int64 there
+			// (the value is one that a canonical JSON number carries exactly)
+			fs = append(append([]int64{}, fs...), farPast)
 			for _, from := range fs {
 				untils := uniq([]int64{0, from - 1, from, from + 1, from + D - 1, from + D, from + D + 1})
 				for _, until := range untils {
@@ -168,6 +174,9 @@ func Run(r *core.Run) {
 						U = from + D
 					}
 					ts := uniq([]int64{0, from - 1, from, from + 1, until - 1, until, until + 1, from + D - 1, from + D, from + D + 1, U - 1, U, U + 1})
+					if from == farPast {
+						ts = uniq(append(ts, 807, 808, 1000, 1<<40))
+					}
 					for _, typ := range types {
 						var req ops.M
 						switch typ {
